@@ -14,8 +14,8 @@ import subprocess
 import sys
 import time
 
-VERIF = "/verif"
-REPO = "/repo"
+VERIF = os.environ.get("VERIF_ROOT", "/verif")   # a scratch copy of /verif (seed matrix) sets VERIF_ROOT / VERIF_REPO
+REPO = os.environ.get("VERIF_REPO", "/repo")
 LEAN = VERIF + "/lean"
 BUILD = VERIF + "/.build"
 GO = "go1.26.8"
@@ -151,7 +151,25 @@ def strip_comments(src):
 def props_theorems(pid):
     path = "%s/PRV/Props/%s.lean" % (LEAN, pid)
     src = strip_comments(open(path).read())
-    return THEOREM_RE.findall(src)
+    # names relative to PRV.Props.<pid>, following `namespace` / `end` lines (nested namespaces give dotted names)
+    base = "PRV.Props.%s" % pid
+    stack, names = [], []
+    for line in src.split("\n"):
+        m = re.match(r"\s*namespace\s+([A-Za-z0-9_.']+)", line)
+        if m:
+            stack.append(m.group(1))
+            continue
+        m = re.match(r"\s*end\s+([A-Za-z0-9_.']+)\s*$", line)
+        if m and stack and stack[-1] == m.group(1):
+            stack.pop()
+            continue
+        for n in THEOREM_RE.findall(line):
+            full = ".".join(stack + [n])
+            if full.startswith(base + "."):
+                names.append(full[len(base) + 1:])
+            else:
+                names.append(n)
+    return names
 
 
 FORBIDDEN = re.compile(r"\bsorry\b|\badmit\b|^\s*axiom\s|native_decide|bv_decide|implemented_by|\bunsafe\s|maxHeartbeats 0", re.M)
@@ -575,8 +593,8 @@ def crash_violation(ctx, transcript, out, prefix):
     if not cases:
         return False
     h, lines = cases[-1]
-    where = re.search(r"\n(github.com/Lumerin-protocol/proxy-router/internal/[^\n(]*)\([^\n]*\n\t(/repo/[^\s]*)", out[m.end():])
-    site = (where.group(2).replace("/repo/", "") if where else "?")
+    where = re.search(r"\n(github.com/Lumerin-protocol/proxy-router/internal/[^\n(]*)\([^\n]*\n\t(/[^\s]*/internal/[^\s]*)", out[m.end():])
+    site = (where.group(2).replace(REPO + "/", "") if where else "?")
     sig = "%s:process-crash-%s" % (prefix, re.sub(r"[^A-Za-z0-9]+", "-", site.split(":")[0].split("/")[-1]))
     violation(ctx, sig, "the process died: %s at %s" % (m.group(1), site),
               {"clause": "no input crashes the process", "case": h, "ops": [l for l in lines if l.startswith("> ")], "panic": m.group(1), "site": site,
